@@ -87,10 +87,19 @@ func mEqual(f *frame, st *State, ins *ssa.Call, args []Val) Val {
 	return VBool{r}
 }
 
-// matchAt: sep occurs in s at position k (k is a term).
+// matchAt: sep occurs in s at position k (k is a term). Addresses are idx(off, k+j) so that
+// quantified specifications over the same slice see the same terms.
 func matchAt(ex *Exec, ms T, s VSlice, mp T, p VSlice, k T) T {
-	sub := VSlice{R: s.R, Elem: s.Elem, Off: tAdd(s.Off, k), Len: tSub(s.Len, k), Cap: tSub(s.Len, k)}
-	return prefixTerm(ex, ms, sub, mp, p)
+	if p.HasLit {
+		cs := []T{tLe(num(int64(len(p.Lit))), tSub(s.Len, k))}
+		for j, c := range p.Lit {
+			cs = append(cs, tEq(tSel(ms, tIdx(s.Off, tAdd(k, num(int64(j))))), num(int64(c))))
+		}
+		return tAnd(cs...)
+	}
+	q := ex.decls.fresh("ma_q", SInt)
+	return tAnd(tLe(p.Len, tSub(s.Len, k)), tForall(q, tImp(tAnd(tLe("0", q), tLt(q, p.Len)),
+		tEq(tSel(ms, tIdx(s.Off, tAdd(k, q))), tSel(mp, tIdx(p.Off, q))))))
 }
 
 func indexModel(f *frame, st *State, s VSlice, ms T, p VSlice, mp T, hint string) T {
@@ -148,7 +157,8 @@ func mCut(f *frame, st *State, ins *ssa.Call, args []Val) Val {
 	before := VSlice{R: s.R, Elem: s.Elem, Off: s.Off, Len: tIte(found, i, s.Len), Cap: tIte(found, tSub(s.Cap, "0"), s.Cap)}
 	// bytes.Cut returns s[:i] (cap unchanged) and s[i+len(sep):]
 	skip := tAdd(i, p.Len)
-	after := VSlice{R: s.R, Elem: s.Elem, Off: tIte(found, tAdd(s.Off, skip), s.Off), Len: tIte(found, tSub(s.Len, skip), "0"), Cap: tIte(found, tSub(s.Cap, skip), "0")}
+	// not found: after is nil; as an empty view it is placed at the end of s
+	after := VSlice{R: s.R, Elem: s.Elem, Off: tIte(found, tAdd(s.Off, skip), tAdd(s.Off, s.Len)), Len: tIte(found, tSub(s.Len, skip), "0"), Cap: tIte(found, tSub(s.Cap, skip), "0")}
 	return VTuple{[]Val{before, after, VBool{found}}}
 }
 
